@@ -5,7 +5,13 @@
 (*                                                                         *)
 (* A registry point (a spec name) is declared in a base SpecSet class.      *)
 (* Every direct subclass that defines a datasource of the same name         *)
-(* registers an IMPLEMENTATION.  A behaviour is                             *)
+(* registers an IMPLEMENTATION.  A subclass may RE-DECLARE the point (same   *)
+(* name again): the refined point is wired onto its parent's point as one   *)
+(* more datasource and direct subclasses of the refining class attach their *)
+(* implementations to it - "levels" 0 (the class declaring the name first)  *)
+(* .. levels.  The context handler lists live on the HIGHEST class of the   *)
+(* MRO declaring the name, i.e. they are shared by all levels.  A behaviour *)
+(* is                                                                       *)
 (*   reg  : a history of RegisterImpl steps (one per subclass definition),  *)
 (*          modelled the way the metaclass does it: the point's dependency  *)
 (*          list grows by append, every context found in the dependency     *)
@@ -30,17 +36,19 @@ CONSTANTS
     MaxImpl,     \* implementations per history
     MaxAny,      \* longest at-least-one list of contexts
     KindSet,     \* declaration kinds explored: "req", "any", "via", "viaimpl"
-    AllowSeed    \* BOOLEAN: also explore evaluations over a pre-seeded broker
+    AllowSeed,   \* BOOLEAN: also explore evaluations over a pre-seeded broker
+    MaxLvl       \* how often the registry point may be re-declared down the class hierarchy
 
 VARIABLES
     phase,       \* "reg" | "eval" | "done"
     impls,       \* Seq of declarations, in registration order
     handlers,    \* [Ctx -> Seq(impl)]   SpecSet.context_handlers[name][ctx]
     ignore,      \* [1..MaxImpl -> SUBSET Ctx]   dr.IGNORE projected on contexts
-    pointDeps,   \* Seq(impl)   dr.get_delegate(point).deps
+    levels,      \* 0..MaxLvl: number of re-declarations of the point (chosen with the history)
+    pointDeps,   \* [0..MaxLvl -> Seq(impl, or 0 for the point of the next level)]   dr.get_delegate(point_l).deps
     ev           \* the evaluation: [active, outc, houtc, seeded, has, called, pval]
 
-vars == <<phase, impls, handlers, ignore, pointDeps, ev>>
+vars == <<phase, impls, handlers, ignore, levels, pointDeps, ev>>
 
 Ctx      == 1..NCtx
 Rng(s)   == {s[i] : i \in DOMAIN s}
@@ -48,17 +56,18 @@ Max(S)   == CHOOSE x \in S : \A y \in S : y <= x
 InjSeqs(S, lo, hi) == {s \in UNION {[1..n -> S] : n \in lo..hi} : \A i, j \in DOMAIN s : s[i] = s[j] => i = j}
 
 -----------------------------------------------------------------------------
-(* Declarations.  One record shape [k, cs, j]:                              *)
+(* Declarations.  One record shape [k, cs, j, lvl] (lvl: the level whose     *)
+(* point the implementation is attached to):                                *)
 (*   "req"     @datasource(C)               cs = <<C>>                       *)
 (*   "any"     @datasource([C1, .., Cn])    cs = <<C1, .., Cn>>              *)
 (*   "via"     @datasource(h) with a helper datasource h declared           *)
 (*             @datasource(C) (Len(cs) = 1) or @datasource([C1, ..])         *)
 (*   "viaimpl" @datasource(<earlier implementation j of the same spec>)     *)
 Decls(n) ==
-    (IF "req" \in KindSet THEN [k : {"req"}, cs : {<<c>> : c \in Ctx}, j : {0}] ELSE {})
-    \cup (IF "any" \in KindSet THEN [k : {"any"}, cs : InjSeqs(Ctx, 1, MaxAny), j : {0}] ELSE {})
-    \cup (IF "via" \in KindSet THEN [k : {"via"}, cs : InjSeqs(Ctx, 1, MaxAny), j : {0}] ELSE {})
-    \cup (IF "viaimpl" \in KindSet THEN [k : {"viaimpl"}, cs : {<<>>}, j : 1..n] ELSE {})
+    (IF "req" \in KindSet THEN [k : {"req"}, cs : {<<c>> : c \in Ctx}, j : {0}, lvl : 0..levels] ELSE {})
+    \cup (IF "any" \in KindSet THEN [k : {"any"}, cs : InjSeqs(Ctx, 1, MaxAny), j : {0}, lvl : 0..levels] ELSE {})
+    \cup (IF "via" \in KindSet THEN [k : {"via"}, cs : InjSeqs(Ctx, 1, MaxAny), j : {0}, lvl : 0..levels] ELSE {})
+    \cup (IF "viaimpl" \in KindSet THEN [k : {"viaimpl"}, cs : {<<>>}, j : 1..n, lvl : 0..levels] ELSE {})
 
 (* _get_ctx_dependencies: every context in the dependency tree (dr.walk_tree) *)
 RECURSIVE TreeCtx(_, _)
@@ -67,11 +76,16 @@ TreeCtx(d, I) == IF d.k = "viaimpl" THEN TreeCtx(I[d.j], I) ELSE Rng(d.cs)
 NoEval == [active |-> 0, outc |-> <<>>, houtc |-> <<>>, seeded |-> {}, arch |-> FALSE, has |-> {}, called |-> {},
            pval |-> 0]
 
+(* The re-declaring classes exist before the first implementation: the     *)
+(* point of level l+1 is the first dependency of the point of level l.      *)
+FreshDeps(L) == [l \in 0..MaxLvl |-> IF l < L THEN <<0>> ELSE <<>>]
+
 Init ==
     /\ phase = "reg" /\ impls = <<>>
     /\ handlers = [c \in Ctx |-> <<>>]
     /\ ignore = [i \in 1..MaxImpl |-> {}]
-    /\ pointDeps = <<>>
+    /\ levels \in 0..MaxLvl
+    /\ pointDeps = FreshDeps(levels)
     /\ ev = NoEval
 
 (* spec_factory.py:634-657 + 597-616 *)
@@ -79,7 +93,7 @@ RegState(d, I, H, G, P) ==
     LET i  == Len(I) + 1
         cs == TreeCtx(d, I)
     IN [impls     |-> Append(I, d),
-        pointDeps |-> Append(P, i),                                       \* dr.add_dependency(point, v)
+        pointDeps |-> [P EXCEPT ![d.lvl] = Append(@, i)],                 \* dr.add_dependency(point_lvl, v)
         ignore    |-> [x \in DOMAIN G |-> G[x] \cup {c \in cs : x \in Rng(H[c])}],   \* add_ignore(old, c)
         handlers  |-> [c \in DOMAIN H |-> IF c \in cs THEN Append(H[c], i) ELSE H[c]]]
 
@@ -87,7 +101,7 @@ RegisterImpl(d) ==
     /\ phase = "reg" /\ Len(impls) < MaxImpl
     /\ LET s == RegState(d, impls, handlers, ignore, pointDeps) IN
          /\ impls' = s.impls /\ pointDeps' = s.pointDeps /\ ignore' = s.ignore /\ handlers' = s.handlers
-    /\ UNCHANGED <<phase, ev>>
+    /\ UNCHANGED <<phase, ev, levels>>
 
 -----------------------------------------------------------------------------
 (* Evaluation, the way the engine does it (DrEngine: Ignored branch,        *)
@@ -108,10 +122,16 @@ Run(i, a, S, P, oc, hoc, st) ==
                 [has    |-> st.has \cup (IF i \in S \/ (fire /\ oc[i] = "val") THEN {i} ELSE {}),
                  called |-> st.called \cup (IF fire THEN {i} ELSE {})])
 
-(* RegistryPoint.__call__ (spec_factory.py:561-565) *)
-PointPick(has) ==
-    LET idx == {x \in DOMAIN pointDeps : pointDeps[x] \in has}
-    IN IF idx = {} THEN 0 ELSE pointDeps[Max(idx)]
+(* RegistryPoint.__call__ (spec_factory.py:561-565): the last dependency    *)
+(* that has a value; a dependency may be the point of the next level.       *)
+RECURSIVE PickAt(_, _)
+PickAt(l, has) ==
+    LET ds    == pointDeps[l]
+        sub   == IF l < MaxLvl THEN PickAt(l + 1, has) ELSE 0
+        holds(x) == IF ds[x] = 0 THEN sub # 0 ELSE ds[x] \in has
+        idx   == {x \in DOMAIN ds : holds(x)}
+    IN IF idx = {} THEN 0 ELSE IF ds[Max(idx)] = 0 THEN sub ELSE ds[Max(idx)]
+PointPick(has) == PickAt(0, has)        \* observed at the class that declares the name first
 
 (* dr.run with a SerializedArchiveContext in the broker (arch): the DIRECT   *)
 (* dependencies of every component whose value is already loaded are taken  *)
@@ -134,17 +154,17 @@ SeedOuts(n) == {o \in [1..n -> Outs] : \A i \in 1..n : impls[i].k # "viaimpl" =>
 StartEval ==
     /\ phase = "reg" /\ impls # <<>>
     /\ phase' = "eval"
-    /\ UNCHANGED <<impls, handlers, ignore, pointDeps, ev>>
+    /\ UNCHANGED <<impls, handlers, ignore, levels, pointDeps, ev>>
 
 Evaluate ==
     /\ phase = "eval"
     /\ phase' = "done"
     /\ LET n == Len(impls) IN
        \/ \E a \in Ctx, oc \in [1..n -> Outs], hoc \in HOuts(n) : ev' = EvalWith(a, oc, hoc, {}, FALSE)
-       \/ /\ AllowSeed
+       \/ /\ AllowSeed /\ levels = 0          \* (seeded brokers: single-level histories only, see notes/C05.md)
           /\ \E S \in SUBSET (1..n) \ {{}}, oc \in SeedOuts(n), arch \in BOOLEAN :
                 ev' = EvalWith(0, oc, [i \in 1..n |-> "val"], S, arch)
-    /\ UNCHANGED <<impls, handlers, ignore, pointDeps>>
+    /\ UNCHANGED <<impls, handlers, ignore, levels, pointDeps>>
 
 Register == \E d \in Decls(Len(impls)) : RegisterImpl(d)
 Next == Register \/ StartEval \/ Evaluate
@@ -212,7 +232,12 @@ IgnoreExact ==
 HandlersDeclared ==
     \A a \in Ctx : /\ Rng(handlers[a]) = {i \in DOMAIN impls : a \in DeclFor(i)}
                    /\ \A x, y \in DOMAIN handlers[a] : x < y => handlers[a][x] < handlers[a][y]
-PointDepsInOrder == pointDeps = [i \in DOMAIN impls |-> i]
+(* every point lists the point of the next level first, then exactly the implementations attached to it, in order *)
+PointDepsInOrder ==
+    \A l \in 0..MaxLvl :
+        LET ds == pointDeps[l] IN
+        /\ {ds[x] : x \in DOMAIN ds} = {i \in DOMAIN impls : impls[i].lvl = l} \cup (IF l < levels THEN {0} ELSE {})
+        /\ \A x, y \in DOMAIN ds : x < y => ds[x] < ds[y]
 
 -----------------------------------------------------------------------------
 (* Static resolution over a dependency DAG recovered from the registries    *)
